@@ -143,6 +143,11 @@ class ModelPtr(SingleType):
 ContextInjectionType = Dict[ModelMeta, Union[ModelMeta, str]]
 
 
+class _ContextData(threading.local):
+    # Class-level default: visible in every thread, not only in the one that imported this module
+    context: ContextInjectionType = None
+
+
 class AbsoluteModelRef:
     """
     Model forward absolute references. Using ContextManager to inject real models paths into typing code.
@@ -168,8 +173,7 @@ class AbsoluteModelRef:
     """
 
     class Context:
-        data = threading.local()
-        data.context: ContextInjectionType = None
+        data = _ContextData()
 
         def __init__(self, patches: ContextInjectionType):
             self.context: ContextInjectionType = patches
